@@ -347,15 +347,31 @@ func (w *World) BadEncoding(cls string, valid []byte) []byte {
 		return b
 	case "xgep": // x >= p, flags kept; x - p is the abscissa of a curve point, so that x >= p is the ONLY reason to refuse the string
 		pb := make([]byte, 48)
-		k := int64(w.Rng.Intn(1000))
+		// x - p of several magnitudes: tiny, and just below / above each 64-bit limb boundary (carries between limbs of x)
+		limb := w.Rng.Intn(6)
+		kk := big.NewInt(int64(w.Rng.Intn(1000)))
+		if limb > 0 {
+			kk.Lsh(big.NewInt(1), uint(64*limb))
+			switch w.Rng.Intn(3) {
+			case 0:
+				kk.Sub(kk, big.NewInt(int64(1+w.Rng.Intn(1<<20)))) // just below the boundary: low limbs all ones
+			case 1:
+				kk.Add(kk, big.NewInt(int64(w.Rng.Intn(1<<20))))
+			default:
+				kk.Sub(kk, new(big.Int).Lsh(big.NewInt(int64(1+w.Rng.Intn(15))), uint(64*limb-4))) // 0xF000... in the top limb below
+			}
+		}
+		room := new(big.Int).Sub(new(big.Int).Lsh(big.NewInt(1), 381), ref.P)
+		if kk.Cmp(room) >= 0 {
+			kk.Mod(kk, room)
+		}
 		for {
-			kk := big.NewInt(k)
 			if _, ok := ref.FpSqrt(ref.FpAdd(ref.FpMul(ref.FpMul(kk, kk), kk), big.NewInt(4))); ok {
 				break
 			}
-			k++
+			kk.Add(kk, big.NewInt(1))
 		}
-		x := new(big.Int).Add(ref.P, big.NewInt(k))
+		x := new(big.Int).Add(ref.P, kk)
 		x.FillBytes(pb)
 		pb[0] |= 0x80 | (b[0] & 0x20)
 		return pb
